@@ -53,6 +53,9 @@ FprVersionOk(sv, fv) == sv = fv
 (* a v6 primary carries only v6 subkeys (the rule C15 states). RFC 9580 10.1.1 also forbids a v6 subkey  *)
 (* under a v4 primary, but the property does not claim that direction: "dontcare"                       *)
 KeyGrammar(pv, sv) == IF pv = 6 THEN (IF sv = 6 THEN "ok" ELSE "err") ELSE IF sv = 6 THEN "dontcare" ELSE "ok"
+(* legacy (v2 / v3) primary keys carry no subkeys at all: the certificate parser refuses such a pairing, while the bare *)
+(* legacy primary key is still a well-formed certificate                                                                *)
+LegacyKeyGrammar(pv, withSubkey) == IF withSubkey THEN "err" ELSE "ok"
 (* a signing-capable subkey needs a valid embedded back signature - on BOTH import paths *)
 BindingOk(can_sign, backsig) == can_sign => backsig = "valid"
 
